@@ -200,6 +200,9 @@ def _mk_fs(rng, nfiles, tname):
         if text.count("\n") > 60:
             text = workload.truncate_at(text, rng.randint(5, 60))
         text = workload.restyle(rng, text)
+        if rng.random() < 0.04:
+            text, big = workload.enlarge(rng, text)
+            label += "+big%d" % big
         if rng.random() < 0.05:
             text += rng.choice(["\U0001d4b3 non-BMP \U0001f389", "\u2028line sep", "tab\there", "\x0bvt", "nul\x00byte", "\x85nel", "\x0cff"])
         p = "/simfs/%s/f%d.feature" % (tname, i)
